@@ -17,7 +17,7 @@ RULE = ("comparison constraints on PCBO and PCSO, logic constraints, and to_qubo
         "built with a sympy symbol as weight / penalty (one symbol per model, or one per constraint), then subs(symbol -> c) "
         "for dyadic c > 0; compared with the numeric build and with the Gallina model at c; non-trivial = the symbolic model "
         "has at least 3 terms; distinct by canonical JSON")
-THEOREMS = ""
+THEOREMS = "C16_constraint, C16_logic, C16_spin, C16_affine"
 MODELLED = "sympy arithmetic, subs and float conversion are outside the model (reached by the comparison only)"
 
 CVALS = [F(1), F(2), F(1, 2), F(7, 4), F(3), F(5, 2)]
@@ -52,11 +52,37 @@ def gen(rng, i, tier):
         case["calls"] = case["calls"][:1]      # the comparison with the Gallina model looks at the model after the call
         for call in case["calls"]:
             call["lam"] = [c.numerator, c.denominator]
-    return {"fam": fam, "case": case, "c": [c.numerator, c.denominator], "per_call": rng.random() < 0.4}
+    symP = None
+    if fam in ("c02", "c03") and rng.random() < 0.25:
+        # one coefficient of the constraint polynomial is a symbol too (a capacity / item weight chosen later); bounds are
+        # then supplied explicitly (exact extrema of the numeric polynomial) so both builds see the same ones
+        call = case["calls"][0]
+        P = G.unjraw(call["P"])
+        nz = [j for j, (k, v) in enumerate(P)]
+        if nz:
+            labs = sorted({l for k, _ in P for l in k}, key=C.enc)
+            dom = (1, -1) if fam == "c03" else (0, 1)
+            if len(labs) <= 8:
+                import itertools
+                vals = []
+                for b in itertools.product(dom, repeat=len(labs)):
+                    x = dict(zip(labs, b))
+                    tot = F(0)
+                    for k, v in P:
+                        pr = 1
+                        for l in k:
+                            pr *= x[l]
+                        tot += v * pr
+                    vals.append(tot)
+                lo, hi = min(vals), max(vals)
+                call["bounds"] = [[lo.numerator, lo.denominator], [hi.numerator, hi.denominator]]
+                symP = rng.choice(nz)
+    return {"fam": fam, "case": case, "c": [c.numerator, c.denominator], "per_call": rng.random() < 0.4, "symP": symP}
 
 
-def build(fam, case, lams):
-    """lams: one weight per call (numbers or sympy symbols)"""
+def build(fam, case, lams, symP=None):
+    """lams: one weight per call (numbers or sympy symbols); symP = (index, symbol): that coefficient of the first call's
+    polynomial is replaced by the symbol"""
     import qubovert as qv
     with warnings.catch_warnings(record=True) as ws:
         warnings.simplefilter("always")
@@ -65,6 +91,8 @@ def build(fam, case, lams):
             H = (qv.PCBO if fam == "c02" else qv.PCSO)()
             for call, lam in zip(case["calls"], lams):
                 P = {k: C.num(v) for k, v in G.unjraw(call["P"])}
+                if symP is not None and call is case["calls"][0]:
+                    P[list(P)[symP[0]]] = symP[1]
                 b = None if call["bounds"] is None else tuple(None if x is None else C.num(F(*x)) for x in call["bounds"])
                 kw = {"lam": lam, "bounds": b}
                 if call["rel"] != "eq":
@@ -92,33 +120,47 @@ def run_impl(case):
     n = len(inner["calls"]) if fam != "c01" else 1
     syms = [sympy.Symbol("lam%d" % i) for i in range(n)] if case["per_call"] else [sympy.Symbol("lam")] * n
     checks = []
+    sp = case.get("symP")
+    subsd = {s: float(c) for s in set(syms)}
+    wsym = None
+    if sp is not None:
+        wsym = sympy.Symbol("w")
+        subsd[wsym] = float(C.num(G.unjraw(inner["calls"][0]["P"])[sp][1]))
     try:
-        Hs = build(fam, inner, syms)
+        Hs = build(fam, inner, syms, None if sp is None else (sp, wsym))
         Hn = build(fam, inner, [C.num(c)] * n)
         wn = last_warn()
     except (KeyError, ValueError, TypeError) as ex:
         return {"error": type(ex).__name__, "checks": []}
     snap = (dict(Hs), getattr(Hs, "_constraints", None) and {k: [dict(p) for p in v] for k, v in Hs._constraints.items()},
             getattr(Hs, "_ancilla", None))
-    Hsub = Hs.subs({s: float(c) for s in set(syms)})
+    Hsub = Hs.subs(subsd)
     snap2 = (dict(Hs), getattr(Hs, "_constraints", None) and {k: [dict(p) for p in v] for k, v in Hs._constraints.items()},
              getattr(Hs, "_ancilla", None))
     if snap != snap2:
         checks.append("subs changed the original model")
     if type(Hsub) is not type(Hn):
         checks.append("subs returned %s, the numeric build is %s" % (type(Hsub).__name__, type(Hn).__name__))
-    if dict(Hsub) != dict(Hn):
+    if sp is not None:
+        # a symbol inside P may legitimately steer the shortcut tests differently; what the property fixes is the record
+        try:
+            same = all(abs(float(Hsub.get(k, 0)) - float(Hn.get(k, 0))) < 1e-9 for k in set(Hsub) | set(Hn))
+        except TypeError:
+            same = False
+            checks.append("a symbol is left in the coefficients after subs")
+    elif dict(Hsub) != dict(Hn):
         diff = {k: (Hsub.get(k), Hn.get(k)) for k in set(Hsub) | set(Hn) if Hsub.get(k) != Hn.get(k)}
         checks.append("coefficients after subs differ from the numeric build: %r" % (dict(list(diff.items())[:3]),))
     if hasattr(Hn, "constraints"):
         if Hsub.constraints != Hn.constraints:
-            checks.append("recorded constraints after subs differ from the numeric build")
-        if Hsub.num_ancillas != Hn.num_ancillas:
+            checks.append("recorded constraints after subs differ from the numeric build: %r vs %r" % (
+                {k: [dict(p) for p in v] for k, v in Hsub.constraints.items()}, {k: [dict(p) for p in v] for k, v in Hn.constraints.items()}))
+        if sp is None and Hsub.num_ancillas != Hn.num_ancillas:
             checks.append("num_ancillas after subs is %d, numeric build has %d" % (Hsub.num_ancillas, Hn.num_ancillas))
     # every symbolic coefficient is affine in each symbol
     for k, v in Hs.items():
         if isinstance(v, sympy.Basic):
-            for s in set(syms):
+            for s in (set(syms) if sp is None else ()):
                 if sympy.degree(sympy.expand(v), s) > 1:
                     checks.append("coefficient of %r is not affine in %s: %s" % (k, s, v))
                     break
@@ -126,7 +168,7 @@ def run_impl(case):
     if fam == "c01":
         out["model"] = {"kind": type(Hsub).__name__, "terms": C.jterms(C.enc_terms(Hsub))}
     else:
-        out["obs"] = c02.observe(Hsub, wn)
+        out["obs"] = c02.observe(Hsub if sp is None else Hn, wn)
         out["ncalls"] = n
     return out
 
@@ -158,7 +200,8 @@ def nontrivial(case, out):
 
 
 def tags(case, out):
-    t = ["family:" + case["fam"], "symbols:" + ("per-call" if case["per_call"] else "one")]
+    t = ["family:" + case["fam"], "symbols:" + ("per-call" if case["per_call"] else "one"),
+         "symbol-in-polynomial:" + str(case.get("symP") is not None)]
     if "error" in out:
         t.append("error:" + out["error"])
     return t
